@@ -5,8 +5,10 @@ import (
 	"fmt"
 	"os"
 	"path/filepath"
+	"runtime"
 	"strings"
 	"testing"
+	"time"
 
 	"github.com/fufuok/cache/zzverif/stats"
 	"github.com/fufuok/cache/zzverif/vs"
@@ -16,6 +18,16 @@ import (
 func TestMain(m *testing.M) {
 	vs.ClockOn = true
 	vs.NowNS = vs.Epoch
+	if os.Getenv("VERIF_MEMLOG") != "" {
+		go func() {
+			for {
+				time.Sleep(5 * time.Second)
+				var ms runtime.MemStats
+				runtime.ReadMemStats(&ms)
+				fmt.Fprintf(os.Stderr, "memlog goroutines=%d heapInuse=%dMB sys=%dMB numGC=%d\n", runtime.NumGoroutine(), ms.HeapInuse>>20, ms.Sys>>20, ms.NumGC)
+			}
+		}()
+	}
 	code := m.Run()
 	stats.Flush()
 	os.Exit(code)
